@@ -1,1 +1,179 @@
 //! Custom extractors for tables that are not plain functions (filled in per unit).
+use crate::tr::{Registry, Res};
+use std::fmt::Write as _;
+use syn::*;
+
+// ------------------------------------------------------------------------------------------------
+// C03 / C19: the `#[cmd(cid = .., len = ..)]` attributes of the six `CommandHandler` enums.
+//
+// For every enum deriving `CommandHandler` in maccommands.rs, certification.rs and multicast/mod.rs
+// one Lean table `List (Nat × Option Nat × String × String)` = (cid, fixed payload length or `none`
+// for a variable-length command, variant name, payload type name) is emitted, in source order (the
+// order matters: the derive generates one `match` arm per variant, the first matching arm wins).
+// The set of enums found is emitted as well, so a seventh command set does not go unnoticed.
+
+fn lit_int(e: &Expr) -> Option<u64> {
+    match e {
+        Expr::Lit(ExprLit { lit: Lit::Int(i), .. }) => i.base10_parse::<u64>().ok(),
+        Expr::Paren(p) => lit_int(&p.expr),
+        Expr::Group(g) => lit_int(&g.expr),
+        _ => None,
+    }
+}
+
+fn derives_command_handler(attrs: &[Attribute]) -> bool {
+    attrs.iter().any(|a| {
+        a.path().is_ident("derive")
+            && a.parse_args_with(punctuated::Punctuated::<Path, Token![,]>::parse_terminated)
+                .map(|ps| ps.iter().any(|p| p.segments.last().map(|s| s.ident == "CommandHandler").unwrap_or(false)))
+                .unwrap_or(false)
+    })
+}
+
+pub struct CmdEntry {
+    pub cid: u64,
+    pub len: Option<u64>,
+    pub variant: String,
+    pub payload: String,
+    pub has_lifetime: bool,
+}
+
+/// all `CommandHandler` enums of one file, in source order
+pub fn cmd_enums(file: &File) -> Res<Vec<(String, Vec<CmdEntry>)>> {
+    let mut out = vec![];
+    for it in &file.items {
+        let Item::Enum(e) = it else { continue };
+        if !derives_command_handler(&e.attrs) {
+            continue;
+        }
+        let mut entries = vec![];
+        for v in &e.variants {
+            let vname = v.ident.to_string();
+            let Fields::Unnamed(f) = &v.fields else { return Err(format!("{}::{}: not a tuple variant", e.ident, vname)) };
+            if f.unnamed.len() != 1 {
+                return Err(format!("{}::{}: expected exactly one field", e.ident, vname));
+            }
+            let (payload, has_lifetime) = match &f.unnamed[0].ty {
+                Type::Path(p) if p.path.segments.len() == 1 => {
+                    let s = &p.path.segments[0];
+                    (s.ident.to_string(), !matches!(s.arguments, PathArguments::None))
+                }
+                _ => return Err(format!("{}::{}: unsupported payload type", e.ident, vname)),
+            };
+            let mut cid = None;
+            let mut len = None;
+            let mut seen = false;
+            for a in &v.attrs {
+                if !a.path().is_ident("cmd") {
+                    continue;
+                }
+                seen = true;
+                let nested = a
+                    .parse_args_with(punctuated::Punctuated::<Meta, Token![,]>::parse_terminated)
+                    .map_err(|er| format!("{}::{}: #[cmd] does not parse: {}", e.ident, vname, er))?;
+                for m in nested {
+                    let Meta::NameValue(nv) = m else { return Err(format!("{}::{}: unsupported #[cmd] argument", e.ident, vname)) };
+                    let key = nv.path.get_ident().map(|i| i.to_string()).unwrap_or_default();
+                    let val = lit_int(&nv.value).ok_or(format!("{}::{}: #[cmd({} = ..)] is not an integer literal", e.ident, vname, key))?;
+                    match key.as_str() {
+                        "cid" => cid = Some(val),
+                        "len" => len = Some(val),
+                        k => return Err(format!("{}::{}: unknown #[cmd] key {}", e.ident, vname, k)),
+                    }
+                }
+            }
+            if !seen {
+                return Err(format!("{}::{}: no #[cmd] attribute (the derive would generate no framing arm)", e.ident, vname));
+            }
+            let cid = cid.ok_or(format!("{}::{}: #[cmd] without cid", e.ident, vname))?;
+            entries.push(CmdEntry { cid, len, variant: vname, payload, has_lifetime });
+        }
+        out.push((e.ident.to_string(), entries));
+    }
+    Ok(out)
+}
+
+fn repo_root() -> Res<std::path::PathBuf> {
+    std::env::args().nth(1).map(std::path::PathBuf::from).ok_or("repo root argument missing".to_string())
+}
+
+fn lean_table_name(enum_name: &str) -> String {
+    let mut c = enum_name.chars();
+    match c.next() {
+        Some(f) => f.to_lowercase().collect::<String>() + c.as_str(),
+        None => String::new(),
+    }
+}
+
+/// `Sel::Custom` entry point: `file` is maccommands.rs; the two sibling files are read from the repo root.
+pub fn cmd_tables(file: &File, _reg: &mut Registry, out: &mut String) -> Res<()> {
+    let root = repo_root()?;
+    let mut all: Vec<(String, String, Vec<CmdEntry>)> = vec![];
+    for (origin, e) in [("lorawan-encoding/src/maccommands.rs", None), ("lorawan-encoding/src/certification.rs", Some(())), ("lorawan-encoding/src/multicast/mod.rs", Some(()))] {
+        let parsed;
+        let f: &File = match e {
+            None => file,
+            Some(()) => {
+                let src = std::fs::read_to_string(root.join(origin)).map_err(|er| format!("{}: {}", origin, er))?;
+                parsed = syn::parse_file(&src).map_err(|er| format!("{}: parse error {}", origin, er))?;
+                &parsed
+            }
+        };
+        let enums = cmd_enums(f)?;
+        if enums.is_empty() {
+            return Err(format!("{}: no CommandHandler enum found", origin));
+        }
+        for (n, es) in enums {
+            all.push((origin.to_string(), n, es));
+        }
+    }
+    writeln!(out, "/-- (cid, fixed payload length | none = variable length, variant, payload type) -/").unwrap();
+    writeln!(out, "abbrev Row := Nat × Option Nat × String × String\n").unwrap();
+    for (origin, name, es) in &all {
+        writeln!(out, "/-- `{}` in {} -/", name, origin).unwrap();
+        writeln!(out, "def {} : List Row := [", lean_table_name(name)).unwrap();
+        let rows: Vec<String> = es
+            .iter()
+            .map(|e| {
+                format!(
+                    "  ({}, {}, {:?}, {:?})",
+                    e.cid,
+                    // what the derive's framing uses: `Payload::max_len()`, which for a payload declared
+                    // without a lifetime (unit struct) is the constant 0, whatever the attribute says
+                    match (e.has_lifetime, e.len) {
+                        (false, _) => "some 0".to_string(),
+                        (true, Some(l)) => format!("some {}", l),
+                        (true, None) => "none".to_string(),
+                    },
+                    e.variant,
+                    e.payload
+                )
+            })
+            .collect();
+        writeln!(out, "{}]\n", rows.join(",\n")).unwrap();
+    }
+    writeln!(out, "/-- every `CommandHandler` enum found, with its table -/").unwrap();
+    writeln!(
+        out,
+        "def allSets : List (String × List Row) := [{}]\n",
+        all.iter().map(|(_, n, _)| format!("({:?}, {})", n, lean_table_name(n))).collect::<Vec<_>>().join(", ")
+    )
+    .unwrap();
+    // payload types without a lifetime are the derive's zero-length unit structs: the derive gives them
+    // `max_len() = 0` regardless of the attribute; an attribute saying otherwise is listed here.
+    writeln!(out, "/-- payload types declared without a lifetime (unit structs: the derive hard-codes length 0) -/").unwrap();
+    writeln!(
+        out,
+        "def unitPayloads : List String := [{}]\n",
+        all.iter().flat_map(|(_, _, es)| es.iter()).filter(|e| !e.has_lifetime).map(|e| format!("{:?}", e.payload)).collect::<Vec<_>>().join(", ")
+    )
+    .unwrap();
+    writeln!(out, "/-- unit-struct payloads whose `#[cmd(len = ..)]` attribute is not `len = 0` (must be empty) -/").unwrap();
+    writeln!(
+        out,
+        "def attrLenIgnored : List String := [{}]\n",
+        all.iter().flat_map(|(_, _, es)| es.iter()).filter(|e| !e.has_lifetime && e.len != Some(0)).map(|e| format!("{:?}", e.payload)).collect::<Vec<_>>().join(", ")
+    )
+    .unwrap();
+    Ok(())
+}
